@@ -37,14 +37,14 @@ def git(cwd, *args, check=True):
     return p.stdout.decode()
 
 
-def read_wt(root):
+def read_wt(root, docs="docs.txt"):
     text = open(os.path.join(root, "bumpver.toml")).read()
     cfg = re.search(r'current_version = "([^"]*)"', text).group(1)
     second = re.search(r"^# release (\S+)$", text, re.M)
     if second and second.group(1) != cfg:
         cfg = "%s (but the second occurrence in the config file says %s)" % (cfg, second.group(1))
     a = open(os.path.join(root, "a.txt")).read()
-    return {"cfg": cfg, "ver": re.search(r"ver=(\S+)", a).group(1), "pep": re.search(r"pep=(\S*)", a).group(1), "part": open(os.path.join(root, "docs.txt")).read().split("\n")[1]}
+    return {"cfg": cfg, "ver": re.search(r"ver=(\S+)", a).group(1), "pep": re.search(r"pep=(\S*)", a).group(1), "part": open(os.path.join(root, docs)).read().split("\n")[1]}
 
 
 def replay(job):
@@ -63,15 +63,16 @@ def replay(job):
         proj = project.Project(root, vcs=None)
         # every third history configures its files under another spelling of their paths (./name); the config file then carries a second occurrence
         respell = idx % 3 == 1
+        docs = "release notes.txt" if idx % 3 == 2 else "docs.txt"        # every third history: a configured file whose name git quotes in its status output
         pre = "./" if respell else ""
         proj.write("bumpver.toml", project.bumpver_toml(prj["v0"], prj["pattern"], [(pre + "bumpver.toml", ['current_version = "{version}"'] + (["# release {version}"] if respell else [])),
                                                                                     (pre + "a.txt", ["ver={version}", "pep={pep440_version}"]),
-                                                                                    ("docs.txt", [prj["partial"]])],       # a file with a PARTIAL pattern only
+                                                                                    (docs, [prj["partial"]])],       # a file with a PARTIAL pattern only
                                                         commit=True, tag=True, push=False, extra={"tag_scope": ([s["scope"] for s in hist if s["act"] == "update"] or ["default"])[0]})
                    + ("\n# release %s\n" % prj["v0"] if respell else ""))
         proj.write("a.txt", "intro\nver=%s\npep=%s\n" % (prj["v0"], pep0))
         part0 = v2version.format_version(v2version.parse_version_info(prj["v0"], prj["pattern"]), prj["partial"])
-        proj.write("docs.txt", "documentation\n%s\nend\n" % part0)
+        proj.write(docs, "documentation\n%s\nend\n" % part0)
         proj.write("other.txt", "tracked, carries no version pattern\n")
         git(root, "add", "-A"); git(root, "commit", "-q", "-m", "init")
         proj.write("untracked.tmp", "never added: must not appear in any bump commit\n")
@@ -88,11 +89,11 @@ def replay(job):
                 if st.get("allow"):
                     args.append("--allow-dirty")
                 head0 = git(root, "rev-parse", "HEAD").strip()
-                prev_wt = read_wt(root)
+                prev_wt = read_wt(root, docs)
                 r = drive.cli(args, cwd=root, env=GENV)
                 ok = r.exit == 0
                 exp_wt = {k: txt(v) for k, v in st["wt"].items()}
-                got_wt = read_wt(root)
+                got_wt = read_wt(root, docs)
                 ntags = len(git(root, "tag", "--list").split())
                 if ok != st["ok"]:
                     problems.append(("exit", r.exit, st["ok"], (r.exc or "")[:120], [m for _l, _n, m in r.logs][-2:]))
@@ -115,9 +116,9 @@ def replay(job):
                     parent = git(root, "rev-parse", "HEAD~1").strip()
                     if parent != head0:
                         problems.append(("not-exactly-one-commit", head0, parent, head1))
-                    names = git(root, "show", "--name-only", "--format=", "HEAD").split()
+                    names = [x for x in git(root, "show", "--name-only", "--format=", "HEAD").split("\n") if x]
                     # docs.txt is part of the bump commit exactly when its partial occurrence changed
-                    want = ["a.txt", "bumpver.toml"] + (["docs.txt"] if prev_wt["part"] != exp_wt["part"] else [])
+                    want = ["a.txt", "bumpver.toml"] + ([docs] if prev_wt["part"] != exp_wt["part"] else [])
                     if sorted(names) != sorted(want):
                         problems.append(("commit-files", names, want))
                     at = git(root, "tag", "--points-at", "HEAD").split()
@@ -143,8 +144,8 @@ def replay(job):
                 git(root, "checkout", "-q", "-b", "feat")
             elif act == "switch":
                 git(root, "checkout", "-q", st["to"])
-                if read_wt(root) != {k: txt(v) for k, v in st["wt"].items()}:
-                    problems.append(("switch-working-tree", read_wt(root)))
+                if read_wt(root, docs) != {k: txt(v) for k, v in st["wt"].items()}:
+                    problems.append(("switch-working-tree", read_wt(root, docs)))
             if problems:
                 problems.append(("at-step", si, act))
                 break
